@@ -373,13 +373,14 @@ fn cmd_check(args: &Args) -> i32 {
     println!("ckc-sim check property={} tier={} VERIF_SEED={} runs_per_profile={} workers={}", prop, tier, seed, runs, workers);
 
     // informational: allocations inside crate calls (single thread, before any worker exists)
-    let (alloc_calls, allocs) = allocprobe::measure(seed, 10_000);
+    // (a tree on which these calls panic is reported by the simulation proper, not from here)
+    let (alloc_calls, allocs) = std::panic::catch_unwind(|| allocprobe::measure(seed, 10_000)).unwrap_or((0, 0));
 
     let mut harness_errors: Vec<String> = Vec::new();
     let mut exit = 0;
 
     // profile 1: this binary (simfast), as a fresh process of its own
-    let out1 = scratch.join(format!("{}-{}-simfast.json", prop, tier));
+    let out1 = scratch.join(format!("{}-{}-simfast-{}.json", prop, tier, std::process::id()));
     let me = std::env::current_exe().unwrap_or_else(|_| PathBuf::from("ckc-sim"));
     let primary = match spawn_run(&me, &prop, &root, "simfast", seed, runs, workers, &out1, None) {
         Ok((code, j, _)) => Report { json: j, exit: code },
@@ -397,7 +398,7 @@ fn cmd_check(args: &Args) -> i32 {
     exit = exit.max(primary.exit);
 
     // profile 2: the overflow-checked build, same seeds, separate process
-    let out2 = scratch.join(format!("{}-{}-simchk.json", prop, tier));
+    let out2 = scratch.join(format!("{}-{}-simchk-{}.json", prop, tier, std::process::id()));
     let secondary = match spawn_run(&other_bin, &prop, &root, "simchk", seed, runs, workers, &out2, None) {
         Ok((code, j, stdout)) => {
             // a class already reported by the first profile is not printed twice
@@ -459,10 +460,13 @@ fn cmd_check(args: &Args) -> i32 {
         let me = std::env::current_exe().unwrap_or_else(|_| PathBuf::from("ckc-sim"));
         let plans: [(&Path, &str, usize); 4] = [(&me, "simfast", 1), (&me, "simfast", 5), (&other_bin, "simchk", 16), (&other_bin, "simchk", 3)];
         for (k, (bin, prof, w)) in plans.iter().enumerate() {
-            let out = scratch.join(format!("{}-det-{}.json", prop, k));
-            let dig = scratch.join(format!("{}-det-{}.bin", prop, k));
+            let out = scratch.join(format!("{}-det-{}-{}.json", prop, k, std::process::id()));
+            let dig = scratch.join(format!("{}-det-{}-{}.bin", prop, k, std::process::id()));
             match spawn_run(bin, &prop, &root, prof, seed ^ 0x5EED, n, *w, &out, Some(&dig)) {
-                Ok(_) => files.push(dig),
+                Ok(_) => {
+                    let _ = std::fs::remove_file(&out);
+                    files.push(dig)
+                }
                 Err(e) => harness_errors.push(format!("determinism sample: {}", e)),
             }
         }
@@ -618,6 +622,8 @@ fn cmd_check(args: &Args) -> i32 {
     for e in &harness_errors {
         eprintln!("HARNESS-ERROR: {}", e);
     }
+    let _ = std::fs::remove_file(&out1);
+    let _ = std::fs::remove_file(&out2);
     println!(
         "ckc-sim check property={} tier={} result={} evaluations={} distinct_nontrivial={} steps={} wall_s={:.1} evidence={}",
         prop,
